@@ -198,6 +198,20 @@ def run(res, tier, seed, driver_ok):
         if rel(W.getMoment(), np.cross(p, f)) > tol or rel(W.getForce(), f) > tol:
             bad('moment', 'moment of a force at p is not p x f', {'f': list(f), 'p': list(p)}, W.getData().reshape(-1).tolist())
         lines.append('scr.wrenchat %s %s' % (tmh.H(f), tmh.H(p))); expect.append((W.getData().reshape(-1), None, 'x', 0.0))
+        # the point of application in every form the code indexes ([0:3]): transform object, 3-array, 3x1 column, 6x1 pose column; direct and through fsr.makeWrench
+        mag_ = float(np.linalg.norm(f))
+        if mag_ > 1e-9:
+            for pnm_, mkp_ in (('tm', lambda: tm([p[0], p[1], p[2], 0, 0, 0])), ('array3', lambda: np.array(p, dtype=float)), ('column3', lambda: np.array(p, dtype=float).reshape((3, 1))),
+                               ('column6', lambda: np.array([p[0], p[1], p[2], 0, 0, 0], dtype=float).reshape((6, 1)))):
+                for cnm_, mkw_ in (('Wrench', lambda q_: Wrench(f.copy(), q_, A.copy())), ('makeWrench', lambda q_: fsr.makeWrench(q_, mag_, list(f / mag_), A.copy()))):
+                    try:
+                        Wp = mkw_(mkp_())
+                    except Exception as e:
+                        bad('raises:point-form:%s:%s' % (cnm_, pnm_), 'building a wrench with the application point given as %s raised %r' % (pnm_, e), {'f': list(f), 'p': list(p)}, None); continue
+                    res.evaluations += 1
+                    if rel(Wp.getMoment(), np.cross(p, f)) > tol or rel(Wp.getForce(), f) > tol:
+                        bad('moment:point-form:%s:%s' % (cnm_, pnm_), 'moment of a force at p is not p x f when p is given as %s' % pnm_, {'f': list(f), 'p': list(p), 'form': pnm_, 'via': cnm_},
+                            Wp.getData().reshape(-1).tolist())
         # the same with whole-number forces handed over in every form a caller would write them: int array, list of Python ints, int magnitude * direction
         fi = np.array([rnd.randint(-9, 9) for _ in range(3)])
         if np.any(fi != 0):
